@@ -44,5 +44,12 @@ with concurrent.futures.ThreadPoolExecutor(max_workers=a.j) as ex:
     for res in ex.map(one, jobs):
         m, chk, seed, rc, msg = res
         print("%-28s %s seed=%s tier=%s -> exit %s  %s" % (m, chk, seed, a.t, rc, msg)); sys.stdout.flush()
-        matrix.setdefault(m, {})["%s/%s/seed%s" % (chk, a.t, seed)] = dict(exit=rc, first=msg)
-        json.dump(matrix, open(mpath, "w"), indent=1, sort_keys=True)
+        # several selftest processes may run at once: merge under a lock instead of rewriting from a stale copy
+        import fcntl
+        with open(mpath + ".lock", "w") as lk:
+            fcntl.flock(lk, fcntl.LOCK_EX)
+            try: matrix = json.load(open(mpath))
+            except Exception: matrix = {}
+            matrix.setdefault(m, {})["%s/%s/seed%s" % (chk, a.t, seed)] = dict(exit=rc, first=msg)
+            json.dump(matrix, open(mpath + ".tmp", "w"), indent=1, sort_keys=True)
+            os.replace(mpath + ".tmp", mpath)
